@@ -207,6 +207,7 @@ class ProgramAnalysis(object):
         ex = Explorer(smt, self.max_paths)
         self.ex = ex
         deadline = time.time() + self.time_budget_s
+        it.deadline = deadline
         use_vm = 'vm' in self.backends
         use_wasm = 'wasm' in self.backends
         an = self
